@@ -153,6 +153,8 @@ pub struct Online {
     role_hist: HashMap<u32, Vec<(u64, i32)>>,
     /// (t, kind) with kind 0 = vote request sent, 1 = answered (any answer), 2 = granted, 3 = round ended
     vote_activity: Vec<(u64, u8)>,
+    /// (t, candidate, term, votes granted by peers, number of peers asked)
+    vote_rounds: Vec<(u64, u32, u64, usize, usize)>,
     /// crashed nodes whose old tasks may still emit hook events until they are aborted
     zombies: BTreeSet<u32>,
     pub watch: super::watchmon::WatchMon,
@@ -236,6 +238,7 @@ impl Online {
             started_as_learner: BTreeSet::new(),
             role_hist: HashMap::new(),
             vote_activity: Vec::new(),
+            vote_rounds: Vec::new(),
             zombies: BTreeSet::new(),
             watch: super::watchmon::WatchMon::default(),
         }
@@ -452,6 +455,7 @@ impl Online {
             }
             Ev::VoteOutcome { candidate, term, granted_by, peers } => {
                 self.vote_activity.push((t, 3));
+                self.vote_rounds.push((t, *candidate, *term, granted_by.len(), peers.len()));
                 self.vote_outcomes.insert((*candidate, *term), (granted_by.clone(), peers.clone()));
             }
             Ev::AeSend { from, term, contiguous, prev_index, first, n, to, id, .. } => {
@@ -718,6 +722,16 @@ impl Online {
             }
         }
         (c[0], c[1], c[2], c[3])
+    }
+
+    /// vote rounds since `t0` in which the candidate held a majority (own vote included) and yet
+    /// nobody became leader of that term: (candidate, term, votes incl. own, voters)
+    pub fn won_rounds_without_leader_since(&self, t0: u64, now: u64) -> Vec<(u32, u64, usize, usize)> {
+        self.vote_rounds
+            .iter()
+            .filter(|(t, _, term, granted, peers)| *t >= t0 && *t + 200 <= now && maj(peers + 1) <= granted + 1 && !self.leaders_by_term.contains_key(term))
+            .map(|(_, c, term, granted, peers)| (*c, *term, granted + 1, peers + 1))
+            .collect()
     }
 
     fn record_grant(&mut self, t: u64, voter: u32, inc: u32, term: u64, candidate: u32, how: &str) {
